@@ -186,6 +186,8 @@ def lift(v, ty=None):
                 return SV(VINT(v.z), VAL)
             if ty.kind == "val" and v.ty.kind in ("str", "char"):
                 return SV(VSTR(v.z), VAL)
+            if ty.kind == "val" and v.ty.kind == "bool":
+                return SV(VINT(z3.If(v.z, 1, 0)), VAL)  # a Python bool among Vyxal values: True == 1, False == 0
             if ty.kind == "val" and v.ty.kind == "seq" and v.ty.elem.kind == "val":
                 return SV(VLIST(v.z), VAL)
             raise OutOfSubset(f"cannot coerce {v.ty} to {ty}")
